@@ -266,6 +266,7 @@ impl <T: ArrayElement> ArrayManipulate<T> for Array<T> {
                     let values =
                         if values.len()? == self_rem_len { values.repeat(&[indices.len()], Some(0))? }
                         else { values };
+                    if values.len()? % (self_rem_len * indices.len()) != 0 { return Err(ArrayError::BroadcastShapeMismatch) }
                     values.moveaxis(vec![axis.to_isize()], vec![0])
                         .ravel()
                         .split(indices.len(), None)?
